@@ -35,6 +35,7 @@ def run(ctx):
     ctx.guard(lazy_builders)
     ctx.guard(owner_first)
     ctx.guard(authoritative)
+    ctx.guard(swizzle_active)
 
 
 def _walk(stmts):
@@ -428,3 +429,98 @@ def authoritative(ctx):
                 "longer returns None for an estimated shape on both the "
                 "single-rank and the all-ranks path (%d of 2 guards found)" % n,
                 text_="Rank.getShape authoritative")
+
+
+# -- R5: the active range swizzleRanks re-computes covers the stored coords ----
+
+def _norm(ctx, f, e, var):
+    import re
+    t = pat.inline(ctx, f, e)
+    return re.sub(r"\b%s\b" % re.escape(var), "$", t).replace(" ", "")
+
+
+def _comp_facts(ctx, f, e, depth=0):
+    """For an iterable expression built by (nested) filtered comprehensions:
+    (element text, [(op, left, right)] facts every element satisfies), the
+    comprehension variable written `$`.  None when `e` is not of that form."""
+    if depth > 4:
+        return None
+    if isinstance(e, ast.Name):
+        v = pat.single_def(ctx, f, e)
+        return _comp_facts(ctx, f, v, depth + 1) if v is not None else None
+    if isinstance(e, ast.Call) and text(e.func) in ("list", "tuple", "sorted", "set") \
+            and len(e.args) == 1:
+        return _comp_facts(ctx, f, e.args[0], depth + 1)
+    if not isinstance(e, (ast.ListComp, ast.GeneratorExp, ast.SetComp)) or \
+            len(e.generators) != 1 or not isinstance(e.generators[0].target, ast.Name):
+        return None
+    g = e.generators[0]
+    var = g.target.id
+    facts = []
+    for cond in g.ifs:
+        for t, pol in pat.conjuncts(cond):
+            p = pat.cmp_raw(t, pol)
+            if p:
+                import re
+                sub = lambda x: re.sub(r"\b%s\b" % re.escape(var), "$", x).replace(" ", "")
+                # inline temporaries on both sides
+                tt = t.operand if isinstance(t, ast.UnaryOp) else t
+                q = pat.cmp_parts(ctx, f, t, pol)
+                facts.append((q[0], sub(q[1]), sub(q[2])))
+    inner = _comp_facts(ctx, f, g.iter, depth + 1)
+    elt = _norm(ctx, f, e.elt, var)
+    if inner is not None:
+        ielt, ifacts = inner
+        # elements of the inner iterable are `ielt`; only a bare pass-through
+        # lets its facts speak about our variable
+        if ielt == "$":
+            facts = facts + ifacts
+    return elt, facts
+
+
+def swizzle_active(ctx):
+    f = ctx.method("Tensor", "swizzleRanks")
+    calls = [c for c in pat.calls(f, attr="setActive")]
+    ctx.require(calls, "C14.R5: swizzleRanks no longer resets active ranges "
+                "(setActive call vanished)")
+    for c in calls:
+        recv = pat.inline(ctx, f, c.func.value).replace(" ", "")
+        arg = c.args[0] if c.args else None
+        if isinstance(arg, ast.Name):
+            arg = pat.single_def(ctx, f, arg)
+        if not (isinstance(arg, ast.Tuple) and len(arg.elts) == 2):
+            raise AnalysisError("C14.R5: cannot read the (start, end) pair of "
+                                "`%s`" % text(c))
+        res = {}
+        for which, e, idx, want in (
+                ("start", arg.elts[0], "$[0]", ("<=", "$[0]", "%s.coords[0]" % recv)),
+                ("end", arg.elts[1], "$[1]", ("<", "%s.coords[-1]" % recv, "$[1]"))):
+            v = e
+            if isinstance(v, ast.Name):
+                v = pat.single_def(ctx, f, v)
+            if not (isinstance(v, ast.Call) and text(v.func) in ("min", "max")
+                    and len(v.args) == 1):
+                raise AnalysisError("C14.R5: the %s of the re-computed active "
+                                    "range is not min/max over the collected "
+                                    "ranges: `%s`" % (which, text(e)))
+            cf = _comp_facts(ctx, f, v.args[0])
+            if cf is None:
+                raise AnalysisError("C14.R5: cannot read the candidate ranges "
+                                    "of `%s`" % text(v))
+            elt, facts = cf
+            strict = ("<", want[1], want[2])
+            ok = elt == idx and (want in facts or strict in facts)
+            res[which] = (ok, elt, facts)
+            if ok:
+                ctx.ok("C14.R5", f, c, "%s: every candidate satisfies %s %s %s"
+                       % ((which,) + want), text_="swizzle active %s" % which)
+            else:
+                ctx.bad("C14.R5", f, c,
+                        "swizzleRanks sets the active range %s of `%s` from "
+                        "candidates `%s` known only to satisfy %s; nothing "
+                        "makes it %s: stored coordinates can fall outside the "
+                        "active range (iterActive drops them)"
+                        % (which, recv, elt, facts or "nothing",
+                           "<= the first stored coordinate" if which == "start"
+                           else "> the last stored coordinate"),
+                        text_="swizzle active %s" % which)
